@@ -137,6 +137,32 @@ func isKnown(property, sig string) bool {
 	return knownSigs[property+"|"+sig]
 }
 
+// withRefusal completes a convergence oracle (C01-C04): it sets a script
+// aside which the device model refuses, because which rule of the device
+// was broken is C08's subject. A refused script does not converge either
+// (the run stops at the refused command), so such a case is a violation of
+// the convergence property as well, unless the refusal is one of the
+// findings listed under C08. The signature is the one C08 gives.
+func withRefusal(base, c08 Oracle) Oracle {
+	return func(c *Case) Verdict {
+		v := base(c)
+		if v.Status != Discard || v.Reason != "refused-by-model" {
+			return v
+		}
+		w := c08(c)
+		if w.Status != Fail {
+			return v
+		}
+		if isKnown("C08", w.Sig) {
+			v.Reason = "refused-known-under-C08"
+			return v
+		}
+		w.Msg = "the emitted script cannot be executed to its end, so the device does not reach the target:\n" + w.Msg
+		w.Classes = v.Classes
+		return w
+	}
+}
+
 // ------------------------------------------------------- failure records
 
 func failDir() string {
